@@ -180,6 +180,7 @@ def o_bounds(prog, lines):
 def o_verdict(prog, lines):
     """C03: deadlock / termination verdicts from the log alone (std threads only: nothing is detached)"""
     P = parse_program(prog)
+    blocking_dtor = any(l.split()[:1] == ["obj"] and len(l.split()) > 3 and l.split()[2] == "tls" and l.split()[3].startswith("lock:") for l in prog)
     bad = []
     for e in executions(lines):
         created, ended = {0}, set()
@@ -205,6 +206,10 @@ def o_verdict(prog, lines):
         if end.startswith("E fail deadlock! blocked tasks: ["):
             ids = set(int(m) for m in re.findall(r"\(task [^()]*\((\d+)\)", end))
             want = created - ended
+            # a thread-local whose destructor takes a lock runs after the body's `end` line and may block there: such a
+            # task is unfinished although its body is over
+            if blocking_dtor and want <= ids <= created:
+                want = ids
             if ids != want:
                 bad.append((f"deadlock report names tasks {sorted(ids)} but the unfinished tasks are {sorted(want)}", "C03:deadlock-list"))
             if not want:
